@@ -1676,8 +1676,12 @@ class WriteTool(BaseTool):
                 os.replace(temp_path, target_path)
 
             except Exception:
-                if os.path.exists(temp_path):
+                # Best-effort cleanup that does not depend on a successful stat():
+                # an exists() probe that itself fails must not leave the temp file behind.
+                try:
                     os.unlink(temp_path)
+                except OSError:
+                    pass
                 raise
 
         except PermissionError:
